@@ -422,7 +422,7 @@ func (y *c05Sys) Check(s *c05State) *engine.Violation {
 }
 
 // c05PeriodMenu is the configuration axis offered at bridge creation.
-var c05PeriodMenu = []time.Duration{-time.Second, -time.Nanosecond, 0, time.Nanosecond, 999 * time.Millisecond, time.Second, 1500 * time.Millisecond, 10 * time.Second, 1 << 62}
+var c05PeriodMenu = []time.Duration{-time.Second, -time.Nanosecond, 0, time.Nanosecond, 999 * time.Millisecond, time.Second, 1500 * time.Millisecond, 10 * time.Second, 1 << 62, 1<<63 - 1}
 
 func c05CreateProbes(res *engine.Result, known func(*engine.Violation) (string, bool)) {
 	w := world.NewL1(world.L1Options{Accounts: map[string]sdk.Coins{"creator": nil, "proposer": nil, "challenger": nil, "submitter": nil}})
